@@ -120,6 +120,34 @@ impl<K: J + Ord + std::hash::Hash + Eq, V: J> J for HashMap<K, V> {
 // ---------------------------------------------------------------------------------------------------------------------
 // per-type encode / decode through the public API
 
+thread_local! {
+    /// what the decoder looked like after the last failed decode of this thread: None = consistent
+    static AFTERMATH: std::cell::RefCell<Option<String>> = const { std::cell::RefCell::new(None) };
+}
+
+/// After a failed decode the decoder is still a decoder over the same buffer (Sources.tla: the position never leaves
+/// the buffer): remaining() <= length, and whatever is read next are the bytes of the buffer at that position, ending
+/// in an end-of-buffer error - never a panic, never a byte from beyond the end.
+fn probe_after_error<I: InputSource>(d: &mut Decoder<I>, window: &[u8]) -> Option<String> {
+    let r = std::panic::catch_unwind(std::panic::AssertUnwindSafe(|| {
+        let rem = d.remaining();
+        if rem > window.len() {
+            return Some(format!("remaining() = {rem} for a buffer of {} bytes", window.len()));
+        }
+        let mut at = window.len() - rem;
+        for _ in 0..3 {
+            match d.decode::<u8>() {
+                Ok(b) if at < window.len() && b == window[at] => at += 1,
+                Ok(b) => return Some(format!("read the byte {b} at offset {at} of a buffer of {} bytes", window.len())),
+                Err(_) if at == window.len() => break,
+                Err(_) => return Some(format!("end of buffer reported at offset {at} of a buffer of {} bytes", window.len())),
+            }
+        }
+        None
+    }));
+    r.unwrap_or_else(|_| Some("using the decoder after the error panicked".to_owned()))
+}
+
 macro_rules! codec_table {
     ($( $name:literal => $ty:ty, |$e:ident, $val:ident| $enc:expr, |$d:ident| $dec:expr ;)*) => {
         /// Encode `v` (JSON) as type `name` into a Vec target; Ok(bytes) or Err(bytes written before refusal).
@@ -167,6 +195,8 @@ macro_rules! codec_table {
                     Some(match r {
                         Ok(x) => Ok((x.to_json(), bytes.len() - $d.remaining())),
                         Err(e) => {
+                            let after = probe_after_error(&mut $d, window);
+                            AFTERMATH.with(|a| *a.borrow_mut() = after);
                             let shown = std::panic::catch_unwind(std::panic::AssertUnwindSafe(|| e.to_string()));
                             match shown {
                                 Ok(s) => Err((true, s)),
@@ -180,6 +210,8 @@ macro_rules! codec_table {
                     Some(match d.skip_tagged_fields() {
                         Ok(()) => Ok((json!("skipped"), bytes.len() - d.remaining())),
                         Err(e) => {
+                            let after = probe_after_error(&mut d, window);
+                            AFTERMATH.with(|a| *a.borrow_mut() = after);
                             let shown = std::panic::catch_unwind(std::panic::AssertUnwindSafe(|| e.to_string()));
                             match shown {
                                 Ok(s) => Err((true, s)),
@@ -358,6 +390,9 @@ fn run_bytes(case: &Value) -> Option<Value> {
                 }
                 if !display_ok {
                     return Some(json!({"kind": "panic", "what": "Display of the returned error panicked", "msg": text}));
+                }
+                if let Some(what) = AFTERMATH.with(|a| a.borrow_mut().take()) {
+                    return Some(json!({"kind": "mismatch", "what": "after a failed decode the decoder is no longer inside its buffer", "observed": what}));
                 }
             }
         }
@@ -569,10 +604,12 @@ pub fn record_dec(n: u64) {
         }
         let r = std::panic::catch_unwind(|| dec_bytes(name, &bytes, 0x3C));
         let ev = match r {
-            Ok(Some(Ok((v, consumed)))) => json!({"ev": "dec", "type": name, "bytes": bytes, "ok": true, "v": v, "consumed": consumed}),
+            Ok(Some(Ok((v, consumed)))) => json!({"ev": "dec", "type": name, "bytes": bytes, "ok": true, "v": v, "consumed": consumed, "inside": true}),
             Ok(Some(Err((display_ok, text)))) => {
                 if display_ok {
-                    json!({"ev": "dec", "type": name, "bytes": bytes, "ok": false, "v": 0, "consumed": 0})
+                    // inside: the decoder is still a decoder over its buffer after the error
+                    let after = AFTERMATH.with(|a| a.borrow_mut().take());
+                    json!({"ev": "dec", "type": name, "bytes": bytes, "ok": false, "v": 0, "consumed": 0, "inside": after.is_none(), "after": after.unwrap_or_default()})
                 } else {
                     json!({"ev": "display-panic", "type": name, "bytes": bytes, "text": text})
                 }
